@@ -51,7 +51,7 @@ func owns(prop, kind string) bool {
 	switch kind {
 	case "panic", "fatal", "died":
 		return prop == "C01"
-	case "alloc", "records", "budget-alloc", "budget-cpu":
+	case "alloc", "records", "budget-alloc", "budget-cpu", "blocked":
 		return prop == "C02"
 	}
 	return false
@@ -133,6 +133,7 @@ func main() {
 	}
 	runChunk := func(ci int, ch chunk) {
 		from := ch.from
+		blockedDeaths := 0
 		for attempt := 0; from < ch.to; attempt++ {
 			base := filepath.Join(runDir, fmt.Sprintf("%s.%d.%d", ch.fam.name, ch.from, attempt))
 			os.Remove(base + ".progress")
@@ -261,6 +262,14 @@ func main() {
 				handle(ch.fam, event{T: "viol", Idx: at, Kind: kind, Site: site, Msg: msg, DI: -1}, tail)
 			}
 			from = at + 1
+			if bb, _ := os.ReadFile(base + ".results"); strings.Count(string(bb), `"k":"blocked"`) > 0 {
+				blockedDeaths++
+			}
+			if blockedDeaths >= 3 {
+				// every further executor would park at the same place after a few hundred cases and cost 3 s each
+				run.Inconclusive(fmt.Sprintf("%s[%d,%d): three executors in a row parked for ever (reported); rest of the chunk skipped", ch.fam.name, ch.from, ch.to))
+				return
+			}
 			if attempt > 200 {
 				run.Inconclusive(fmt.Sprintf("%s[%d,%d): more than 200 executor deaths, rest of the chunk skipped", ch.fam.name, ch.from, ch.to))
 				return
